@@ -70,7 +70,9 @@ def run(chk):
 
     # ---- relationship navigation
     ids = ['identity--' + D.U(10 + i) for i in range(4)]
-    nodes = [stix2.v21.Identity(id=i, name=f'n{n}', created='2020-01-01T00:00:00Z', modified='2020-01-01T00:00:00Z', created_by_ref=ids[0] if n else None) for n, i in enumerate(ids)]
+    nodes = [stix2.v21.Identity(id=i, name=f'n{n}', created='2020-01-01T00:00:00Z', modified='2020-01-01T00:00:00Z', created_by_ref=ids[0] if n else None) for n, i in enumerate(ids[:3])]
+    ids[3] = 'tool--' + D.U(13)
+    nodes.append(stix2.v21.Tool(id=ids[3], name='n3', created='2020-01-01T00:00:00Z', modified='2020-01-01T00:00:00Z', created_by_ref=ids[0]))
 
     def graphs():
         edges_all = [(a, b, t) for a in range(4) for b in range(4) if a != b for t in ('uses', 'targets')]
@@ -99,9 +101,12 @@ def run(chk):
                         if grel != wrel:
                             return (f'related_to#{sname}', f'edges {edges}: {sname}.related_to({oid}, {rtype}, source_only={so}, target_only={to}) = {grel}, scan {wrel}', {})
                         if rtype is None and not so and not to:
-                            gx = sorted({o['id'] for o in src.related_to(nodes[n], filters=[Filter('name', '=', 'n1')])})
-                            wx = [i for i in wrel if i == ids[1]]
-                            if gx != wx: return (f'related_to#{sname}:extra filters', f'edges {edges}: {sname}.related_to({oid}, filters=name=n1) = {gx}, scan {wx}', {})
+                            byid = {o['id']: o for o in nodes}
+                            for xf in (Filter('name', '=', 'n1'), Filter('type', '!=', 'tool'), Filter('type', '!=', 'identity'), Filter('type', '=', 'tool'), Filter('type', 'in', ['identity', 'x']),
+                                       Filter('type', '>', 'j'), Filter('type', 'contains', 'oo'), Filter('id', '!=', ids[1])):
+                                gx = sorted({o['id'] for o in src.related_to(nodes[n], filters=[xf])})
+                                wx = sorted(i for i in wrel if xf._check_property(byid[i][xf.property]))
+                                if gx != wx: return (f'related_to#{sname}:extra filters', f'edges {edges}: {sname}.related_to({oid}, filters=[{xf}]) = {gx}, scan {wx}', {})
                 c = src.creator_of(nodes[n])
                 wc = ids[0] if n else None
                 if (c and c['id']) != wc: return (f'creator_of#{sname}', f'{sname}.creator_of(node {n}) = {c and c["id"]}, expected {wc}', {})
